@@ -810,7 +810,7 @@ def c03_11(ctx: Ctx):
               f"are_joinable can return true although block1 has other outgoing edges and `{ft}` is false", key="C03.11::refuses")
 
 
-@rule("C03.12", ["C03"], "several calls to one callee in one patch each get their return edge", 1)
+@rule("C03.12", ["C03", "C11"], "several calls to one callee in one patch each get their return edge", 1)
 def c03_12(ctx: Ctx):
     fi = ctx.repo.func("_modify.edges.add_return_edges_to_callee")
     lin = linear(fi.node)
@@ -931,7 +931,7 @@ def c20_9(ctx: Ctx):
     if prunes:
         for i in [x for x in ast.walk(dele.node) if isinstance(x, ast.If) and "isinstance(key, gtirb.Offset)" in src(x.test)]:
             pruning_offset_branch = any(isinstance(n, ast.Delete) and any(src(t) == "self._data[elem]" for t in n.targets) for st in i.body for n in ast.walk(st))
-    ctx.check(own or pruning_offset_branch, cls.methods.get("clear") or dele, (clr or dele).node, "clear() resets `_data` (or deleting an element's last Offset drops the element)",
+    ctx.check(own, cls.methods.get("clear") or dele, (clr or dele).node, "clear() resets `_data`",
               "OffsetMapping inherits MutableMapping.clear(), which pops Offset by Offset through __delitem__; that leaves every element key behind with an empty dict, so after clear() "
               "`elem in m` is True, `m[elem]` is {} and node_keys() still yields the element - unlike the dictionary-of-dictionaries model (and unlike a fresh OffsetMapping)",
               key="OffsetMapping.clear::element-level")
@@ -986,7 +986,7 @@ def c15_7(ctx: Ctx):
         raise AnalysisError(f"only {n} stream reads found in dwarf/")
 
 
-@rule("C12.11", ["C12", "C08", "C13"], "several empty label blocks folded into one keep their CFI directives in program order", 1)
+@rule("C12.11", ["C12", "C08", "C13", "C04"], "several empty label blocks folded into one keep their CFI directives in program order", 1)
 def c12_11(ctx: Ctx):
     repo = ctx.repo
     rb = repo.func("assembler.assembler.Assembler.Result.CFIProcedure._replace_block")
@@ -1164,3 +1164,112 @@ def c10_7(ctx: Ctx):
               f"the aligned block with the lowest offset decides (`key={kt}`): in an overlapping group A (align 2) / B (align 16) only A's requirement is re-established after an edit in front "
               "of the group, B ends up misaligned although alignment[B] is still 16 (keeping the strictest block's residue keeps every weaker power-of-two requirement too)",
               key="join_byte_intervals::strictest-alignment")
+
+
+ONESHOT_MAKERS = {"reversed", "iter", "map", "filter", "zip", "enumerate", "itertools.chain", "chain", "itertools.islice"}
+
+
+def _oneshot_expr(fi: FuncInfo, e: ast.AST, depth: int = 0) -> bool:
+    """Does evaluating `e` give a one-shot iterator (exhausted by the first pass)?"""
+    if isinstance(e, ast.GeneratorExp):
+        return True
+    if isinstance(e, ast.Call) and src(e.func) in ONESHOT_MAKERS:
+        return True
+    if isinstance(e, ast.Name) and depth < 2:
+        asg = find_assign(fi.node, e.id)
+        vals = [a.value for a in asg if isinstance(a, ast.Assign)]
+        return bool(vals) and all(_oneshot_expr(fi, v, depth + 1) for v in vals)
+    return False
+
+
+def _return_shape(callee: FuncInfo):
+    """('all', bool) when the whole result is/isn't one-shot, or ('tuple', [bool, ...]) per element."""
+    if any(isinstance(n, (ast.Yield, ast.YieldFrom)) for n in walk_no_nested(callee.node)):
+        return ("all", True)
+    rets = [n.value for n in walk_no_nested(callee.node) if isinstance(n, ast.Return) and n.value is not None]
+    if not rets:
+        return ("all", False)
+    if all(isinstance(r, ast.Tuple) for r in rets) and len({len(r.elts) for r in rets}) == 1:
+        n = len(rets[0].elts)
+        return ("tuple", [any(_oneshot_expr(callee, r.elts[i]) for r in rets) for i in range(n)])
+    return ("all", any(_oneshot_expr(callee, r) for r in rets))
+
+
+@rule("GEN.oneshot", ALL_PROPS, "a value that some producer hands out as a one-shot iterator (generator, reversed(), map(), ...) is walked at most once", 1, scoped=True)
+def gen_oneshot(ctx: Ctx):
+    from ..astx import exclusive
+    from ..resolve import callgraph, resolve_call
+
+    repo = ctx.repo
+    cg = callgraph(repo)
+    n = 0
+    for q, fi in sorted(repo.funcs.items()):
+        if q.startswith(("driver.", "assembler.__main__")):
+            continue
+        env = None
+        for a in [x for x in walk_no_nested(fi.node) if isinstance(x, ast.Assign) and isinstance(x.value, ast.Call)]:
+            env = env or cg.env(q)
+            callees = [t for t in resolve_call(repo, fi, a.value, env) if isinstance(t, FuncInfo)]
+            if not callees:
+                continue
+            shapes = [(_return_shape(c), c) for c in callees]
+            tgt = a.targets[0]
+            names: Dict[str, List[str]] = {}
+            if isinstance(tgt, ast.Name):
+                prod = [c.qual for (k, v), c in shapes if k == "all" and v]
+                if prod:
+                    names[tgt.id] = prod
+            elif isinstance(tgt, ast.Tuple):
+                for i, el in enumerate(tgt.elts):
+                    if isinstance(el, ast.Name):
+                        prod = [c.qual for (k, v), c in shapes if k == "tuple" and i < len(v) and v[i]]
+                        if prod:
+                            names[el.id] = prod
+            for name, producers in names.items():
+                n += 1
+                lin = linear(fi.node)
+                ga = lin.of(a)
+                sites = []
+                for g in lin.stmts:
+                    if g.index <= ga.index:
+                        continue
+                    node = g.node
+                    heads: List[ast.AST] = []
+                    if isinstance(node, (ast.For, ast.AsyncFor)):
+                        heads = [node.iter]
+                    elif isinstance(node, (ast.If, ast.While)):
+                        heads = [node.test]
+                    elif isinstance(node, ast.With):
+                        heads = [i.context_expr for i in node.items]
+                    elif isinstance(node, ast.Try):
+                        heads = []
+                    else:
+                        heads = [node]
+                    for h in heads:
+                        for x in ast.walk(h):
+                            if isinstance(x, ast.Name) and x.id == name and isinstance(x.ctx, ast.Load):
+                                # a consumption inside a loop that does not contain the binding repeats
+                                repeats = [lp for lp in g.loops if lp not in ga.loops]
+                                # `for x in name:` itself is one pass although its body is "in" the loop
+                                if isinstance(node, (ast.For, ast.AsyncFor)) and h is node.iter and isinstance(node.iter, ast.Name):
+                                    repeats = [lp for lp in g.loops if lp not in ga.loops]
+                                sites.append((g, bool(repeats)))
+                                break
+                multi = any(rep for _, rep in sites)
+                for i in range(len(sites)):
+                    for j in range(i + 1, len(sites)):
+                        if not exclusive(sites[i][0].guard, sites[j][0].guard):
+                            multi = True
+                ctx.check(not multi, fi, a, f"`{name}` (from {producers[0].split('.')[-2] + '.' + producers[0].split('.')[-1]}) is consumed once",
+                          f"`{name}` can be a one-shot iterator ({', '.join(p.rsplit('.', 2)[-2] + '.' + p.rsplit('.', 1)[-1] for p in producers[:3])} return generator/reversed()/map() objects) "
+                          f"but is walked at {len(sites)} places (lines {[s[0].node.lineno for s in sites]}{', inside a loop' if any(r for _, r in sites) else ''}): the first pass exhausts it, "
+                          "the later ones see nothing - for the patch wrapper that means the epilogue is never emitted (registers, flags and stack pointer are not restored)",
+                          key=f"{q}::oneshot::{name}")
+                # the same obligation seen from the producer's side (so that it is reported under the properties anchored in the producer's file)
+                for pq in producers[:1]:
+                    pf = repo.funcs[pq]
+                    ctx.check(not multi, pf, pf.node, f"the one-shot iterator returned by {pq.rsplit('.', 2)[-2]}.{pf.name} is consumed once by {q.rsplit('.', 1)[-1]}",
+                              f"{q} walks `{name}` (a one-shot iterator produced here) at {len(sites)} places: only the first pass sees the elements",
+                              key=f"{pq}::oneshot-consumer::{q.rsplit('.', 1)[-1]}::{name}")
+    if n < 1:
+        raise AnalysisError("no one-shot producer/consumer pair found (expected: the reversed() epilogue of _create_prologue_and_epilogue)")
